@@ -639,6 +639,31 @@ theorem observers_any_storage (P Q : List K) :
   unfold Givaro.Model.PolyMore.areNEqual
   rw [Bool.not_eq_true', decide_eq_false_iff_not, setdegree_eq_iff]
 
+/-- the observers by value on any storage: `degree` (`deginfty = -1` exactly for the zero polynomial, else the degree of the
+    denoted polynomial), `leadcoef`, `getEntry`; and `modpowx(R, P, l)` keeps exactly the coefficients below `l` -/
+theorem observers_values (P : List K) (i l : Nat) :
+    (toPoly P = 0 → Givaro.Model.Poly.degree P = -1) ∧
+    (toPoly P ≠ 0 → Givaro.Model.Poly.degree P = ((toPoly P).natDegree : Int)) ∧
+    leadcoef P = (toPoly P).leadingCoeff ∧ getEntry i P = (toPoly P).coeff i ∧
+    (toPoly (modpowx P l)).coeff i = if i < l then (toPoly P).coeff i else 0 :=
+  ⟨(Givaro.Lemmas.PolyMore.degree_value P).1, (Givaro.Lemmas.PolyMore.degree_value P).2, leadcoef_eq_leadingCoeff P,
+   Givaro.Lemmas.PolyMore.getEntry_eq i P, Givaro.Lemmas.PolyMore.coeff_modpowx P l i⟩
+
+/-- `isDivisor(P, Q)` decides `Q | P` for all operands (zero `Q` included: `0 | P` iff `P = 0`), any storage -/
+theorem isDivisor_exact (thr : Nat) (hthr : 1 ≤ thr) (P Q : List K) :
+    Givaro.Model.PolyMore.isDivisor thr P Q = true ↔ toPoly Q ∣ toPoly P :=
+  Givaro.Lemmas.PolyMore.isDivisor_correct thr hthr P Q
+
+example : ∃ thr : Nat, 1 ≤ thr := ⟨50, by decide⟩
+
+/-- the in-place division forms `divin(Q, A)` and `divmodin(Q, R, B)` return the Euclidean quotient / remainder -/
+theorem division_inplace_exact (thr : Nat) (hthr : 1 ≤ thr) (A B : List K) (hb : toPoly B ≠ 0) :
+    toPoly (divin thr A B) = toPoly A / toPoly B ∧
+    toPoly (divmodin thr A B).1 = toPoly A / toPoly B ∧ toPoly (divmodin thr A B).2 = toPoly A % toPoly B :=
+  ⟨Givaro.Lemmas.PolyMore.toPoly_divin thr hthr A B hb, Givaro.Lemmas.PolyMore.toPoly_divmodin thr hthr A B hb⟩
+
+example : ∃ (thr : Nat) (B : List ℚ), 1 ≤ thr ∧ toPoly B ≠ 0 := ⟨50, [1], by decide, by simp⟩
+
 /-- `val(d, P)` is the valuation: `deginfty` exactly for the zero polynomial (stored as `[]`, `[0]`, `[0,0]`, …), else the
     index of the lowest non-zero coefficient -/
 theorem val_exact (P : List K) :
